@@ -719,6 +719,18 @@ pub fn spine_trees(depths: &[usize], exotic: bool) -> Vec<(String, usize, Expres
             for i in 1..d { t = op(Operator::And(t, op(Operator::Or(name(i), E::Test(Test::True))))); }
             out.push((format!("and-{}", k), d, t));
         }
+        // FLAT sentences 't1 t2 ... tn' (left-deep): the only action LAST, last but one, in the middle -- a walk that
+        // keeps the pending right-hand sides on a bounded stack loses exactly these (seed C09-i)
+        for (k, act) in [E::Action(Action::Print), E::Action(Action::FilePrint("o".into())), E::Action(Action::Quit)].into_iter().enumerate() {
+            for (pn, pos) in [("last", d), ("last1", d.saturating_sub(1)), ("mid", d / 2)] {
+                let mut t = op(Operator::Or(name(0), E::Test(Test::True)));
+                for i in 1..=d { t = op(Operator::And(t, if i == pos { act.clone() } else { op(Operator::Or(name(i), E::Test(Test::True))) })); }
+                out.push((format!("flat-and-{}-{}", pn, k), d, t));
+            }
+            let mut t = op(Operator::And(name(0), E::Test(Test::False)));
+            for i in 1..=d { t = op(Operator::Or(t, if i == d { act.clone() } else { op(Operator::And(name(i), E::Test(Test::False))) })); }
+            out.push((format!("flat-or-last-{}", k), d, t));
+        }
         for (k, bottom) in [E::Action(Action::Print), E::Test(Test::True), E::Action(Action::FilePrintNull("z".into()))].into_iter().enumerate() {
             let mut t = bottom.clone();
             for i in 0..d { t = if exotic && i % 5 == 4 { op(Operator::Precedence(t)) } else { op(Operator::Not(t)) }; }
